@@ -156,23 +156,30 @@ def gen_data_cases(ctx, quick):
     cases = []
     n = 0
     scripts = ([('sys', s) for s in U.systematic_scripts(quick)] + [('send', s) for s in U.send_fault_scripts()]
-               + [('wait', s) for s in U.close_wait_scripts()])
+               + [('wait', s) for s in U.close_wait_scripts()] + [('post', s) for s in U.post_handshake_scripts(quick)])
+    t13 = ['tls13-ecdhe', 'tls13-pha', 'tls13-ticket']
     for k, (cls, s) in enumerate(scripts):
-        for v in ([vers[k % 5], vers[(k + 2) % 5]] if quick else vers):
-            for side in ('client', 'server'):
+        if cls == 'post':       # public post-handshake calls: always a TLS 1.3 flavour, plus one older version
+            vsel = ['tls13', vers[k % 4]] if quick else ['tls13', 'tls13', 'tls13'] + vers[:4]
+        else:
+            vsel = [vers[k % 5], vers[(k + 2) % 5]] if quick else vers
+        for vi, v in enumerate(vsel):
+            for side in ((['client', 'server'][(k + vi) % 2],) if (quick and cls == 'post') else ('client', 'server')):
                 for (ign, csock) in ([flags[n % 4]] if quick else flags):
                     fl = U.DATA_FL[v]
-                    if v == 'tls13' and side == 'client' and n % 2:
+                    if v == 'tls13' and cls == 'post':
+                        fl = t13[(k + vi + n) % 3]
+                    elif v == 'tls13' and side == 'client' and n % 2:
                         fl = 'tls13-ticket'        # NewSessionTicket messages are waiting when the first read starts
                     cases.append(dict(fl=fl, side=side, ign=ign, csock=csock, recsz=[16384, 16384, 4, 2][n % 4],
                                       script=s, seed=rng.randrange(1 << 30), cls=cls, both_apis=(not quick or n % 2 == 0)))
                     n += 1
-    for _ in range(600 if quick else 12000):
+    for _ in range(700 if quick else 14000):
         v = rng.choice(vers)
         side = rng.choice(['client', 'server'])
         fl = U.DATA_FL[v]
-        if v == 'tls13' and side == 'client' and rng.random() < 0.4:
-            fl = 'tls13-ticket'
+        if v == 'tls13':
+            fl = rng.choice(['tls13-ecdhe', 'tls13-ecdhe', 'tls13-ticket', 'tls13-pha'])
         ign, csock = rng.choice(flags)
         cases.append(dict(fl=fl, side=side, ign=ign, csock=csock, recsz=rng.choice([16384, 16384, 7, 2]),
                           script=U.random_script(rng), seed=rng.randrange(1 << 30), cls='random',
